@@ -66,7 +66,7 @@ func (te *Extractor) Extract(reader io.Reader) error {
 	doUpdates := func() error {
 		for i := len(te.deferredUpdates) - 1; i >= 0; i-- {
 			m := te.deferredUpdates[i]
-			err := files.UpdateMetaUnix(m.path, uint32(m.mode), m.mtime)
+			err := applyDeferredUpdate(m)
 			if err != nil {
 				return err
 			}
@@ -406,6 +406,23 @@ type deferredUpdate struct {
 	mtime time.Time
 }
 
+// applyDeferredUpdate sets the mode and modification time recorded for a
+// directory. By the time the update is applied a later entry of the archive
+// may have replaced the directory with something else (the last element of an
+// output path is removed and re-created by the extraction functions). Chmod
+// follows symbolic links, so nothing but a directory is touched: otherwise an
+// archive could change the permissions of a file outside the target.
+func applyDeferredUpdate(m deferredUpdate) error {
+	fi, err := os.Lstat(m.path)
+	if err != nil {
+		return err
+	}
+	if !fi.IsDir() {
+		return nil
+	}
+	return files.UpdateMetaUnix(m.path, uint32(m.mode), m.mtime)
+}
+
 func (te *Extractor) deferUpdate(path string, header *tar.Header) error {
 	if header.Mode == 0 && header.ModTime.IsZero() {
 		return nil
@@ -425,7 +442,7 @@ func (te *Extractor) deferUpdate(path string, header *tar.Header) error {
 		// if possible, apply the previous deferral.
 		m := te.deferredUpdates[n-1]
 		if strings.HasPrefix(m.path, prefix()) {
-			err := files.UpdateMetaUnix(m.path, uint32(m.mode), m.mtime)
+			err := applyDeferredUpdate(m)
 			if err != nil {
 				return err
 			}
